@@ -326,7 +326,7 @@ func checkReaders(prop, tier string, seed int64) int {
 	}
 	ndocs, G, Q := 16, 8, 150
 	if tier == "thorough" {
-		ndocs, G, Q = 200, 16, 1500
+		ndocs, G, Q = 150, 16, 500
 	}
 	cases := []*Case{}
 	for i := 0; i < ndocs; i++ {
